@@ -47,7 +47,7 @@ Proof.
   rewrite !(run_agree tb (canon_libcst tb) (canon_libcst_agree tb)).
   unfold canon_libcst, all_guards. cbn [List.filter].
   destruct (has_guard TryParse (t_libcst tb)), (has_guard TryTransform (t_libcst tb)), (has_guard IfNoChanges (t_libcst tb)),
-           (has_guard IfNoDiff (t_libcst tb)), (has_guard IfNotDryWrite (t_libcst tb));
+           (has_guard IfNoDiff (t_libcst tb)), (has_guard IfNotDryWrite (t_libcst tb)), (t_diff tb);
     (eexists; split; [vm_compute; reflexivity|]; split; [repeat constructor; simpl; intuition discriminate|];
      split; [vm_compute; reflexivity|]; split; [vm_compute; reflexivity|]; intros [_ [H _]]; revert H; vm_compute; discriminate).
 Qed.
